@@ -783,7 +783,13 @@ impl Disk {
                         index_ptr = self.get_available_block().expect("unreachable").unwrap();
                         self.allocate_block(index_ptr as usize)?;
                         entry.delta_blocks(1);
-                        pack_index_ptr(&mut index_buf,entry.get_ptr(),0);
+                        // the entry points at the first data block only if there was one; without it the index block just
+                        // allocated is that very block, and the first slot has to stay empty (a hole)
+                        let first_ptr = match fimg.chunks.contains_key(&0) {
+                            true => entry.get_ptr(),
+                            false => 0
+                        };
+                        pack_index_ptr(&mut index_buf,first_ptr,0);
                         entry.set_ptr(index_ptr);
                         index_count += 1;
                         let curr = self.write_data_block_or_not(count,fimg.end(),&mut entry,buf_maybe)?;
